@@ -190,6 +190,8 @@ def run_check(pid, tier, harnesses, expect=(), attempted=(), assumptions=(), bou
                 n_dis += 1
                 if not r.get("trivial"):
                     n_nontriv += 1
+            if r["verdict"] == "unknown_in_known_region":
+                continue
             if r["verdict"] == "known":
                 n_dis += 0
                 for n in r["known"]:
